@@ -19,6 +19,7 @@ from . import loader
 from .sym import Assumed, Engine, EngineLimit, Sym, atom_axioms
 
 REGISTRY: list = []
+FRAME_HOOKS: list = []  # (mark(), check(mark) -> [(clause name, bool)]) pairs registered by dependency models
 import os as _os
 
 _ROOT = _os.path.dirname(_os.path.dirname(_os.path.abspath(__file__)))
@@ -489,11 +490,15 @@ def run_contract(cls, tier="quick", cross=False, no_replay=()):
             def thunk(c=c, case=case, eng=eng):
                 c.__dict__.clear()
                 c.__dict__.update(base_state)
+                marks = [m() for m, _ in FRAME_HOOKS]
                 try:
                     return c.call(case)
                 finally:
                     eng.extra["state"] = dict(c.__dict__)
                     eng.extra["tracked"] = _snap()
+                    # frame conditions of the dependency models, evaluated at the end of the path (while its objects
+                    # are still in the state the real code left them in)
+                    eng.extra["frame"] = [cl for (_, chk), mk in zip(FRAME_HOOKS, marks) for cl in chk(mk)]
 
             paths = eng.explore(thunk, c.expected_exceptions)
         except EngineLimit as e:
@@ -539,6 +544,9 @@ def run_contract(cls, tier="quick", cross=False, no_replay=()):
                 eng.counter = __import__("itertools").count(10_000_000)
                 for name, f in c.ensures(case, p):
                     by_clause.setdefault(name, []).append((p, f))
+                if cls.kind != "canary" and p.outcome == "return":
+                    for name, f in p.extra.get("frame", []):
+                        by_clause.setdefault(name, []).append((p, f))
             except EngineLimit as e:
                 err = "engine limit in ensures: %s" % e
             except Exception as e:
